@@ -27,6 +27,10 @@ type c09Plan struct {
 	Scripts        [][]vfProbeStep `json:"scripts"`
 	Defaults       []vfProbeStep   `json:"defaults"`
 	Events         []c09Event      `json:"events"`
+	// DrainAt >= 0: before that event the service is paused while a request of DrainMs is in flight (the pause drains
+	// for that long while probing goes on) and resumed again
+	DrainAt int `json:"drain_at"`
+	DrainMs int `json:"drain_ms"`
 }
 
 func c09Gen(t *rapid.T) c09Plan {
@@ -70,6 +74,11 @@ func c09Gen(t *rapid.T) c09Plan {
 			ev.Batch = rapid.IntRange(2, 12).Draw(t, "batch")
 		}
 		p.Events = append(p.Events, ev)
+	}
+	p.DrainAt = -1
+	if rapid.IntRange(0, 2).Draw(t, "drain-episode") == 0 {
+		p.DrainAt = rapid.IntRange(0, ne-1).Draw(t, "drain-at")
+		p.DrainMs = rapid.SampledFrom([]int{50, 250, 450, 1050, 2050}).Draw(t, "drain-ms")
 	}
 	return p
 }
@@ -166,7 +175,34 @@ func c09Run(t *testing.T, p c09Plan) (res vfResult) {
 		}
 
 		reqID := 0
-		for _, ev := range p.Events {
+		for ei, ev := range p.Events {
+			if ei == p.DrainAt && p.DrainMs > 0 {
+				if !flush() {
+					return
+				}
+				stretchH = nil
+				// a pause whose drain stays open for DrainMs while the probes keep coming, then resume
+				long := w.goDo(r, vfNewRequest("GET", "any.host", "/long", &vfCtl{ID: "long", DurMs: p.DrainMs}, nil))
+				synctest.Wait()
+				if !long.finished() { // (with no healthy target the request is answered 503 at once: no drain then)
+					if cr := w.runCmd(func() error { return r.PauseService("svc", time.Minute, time.Minute) }); cr.Err != nil || cr.Panicked != "" {
+						res.failf("setup-failed", "pause: %v %s", cr.Err, cr.Panicked)
+						return
+					}
+					res.label("drain-episode")
+				} else {
+					r.PauseService("svc", time.Minute, time.Minute)
+				}
+				<-long.done
+				if cr := w.runCmd(func() error { return r.ResumeService("svc") }); cr.Err != nil || cr.Panicked != "" {
+					res.failf("setup-failed", "resume: %v %s", cr.Err, cr.Panicked)
+					return
+				}
+				synctest.Wait()
+				if (w.now()-base)%(10*time.Millisecond) == 0 {
+					time.Sleep(3 * time.Millisecond) // stay off the instants at which probes complete
+				}
+			}
 			if d := base + vfMs(ev.AtMs) - w.now(); d > 0 {
 				time.Sleep(d)
 			}
